@@ -4,7 +4,7 @@
    Props/ about these models therefore hold of what the code says now. *)
 From Coq Require Import List ZArith NArith Bool Arith String Lia.
 Import ListNotations.
-Require Import V.Kernel.Values V.Kernel.Monad V.Model.Builtins V.Model.Itertools V.Model.Pyl V.Gen.PylSrc V.Proofs.PylRel.
+Require Import V.Kernel.Values V.Kernel.Monad V.Model.Builtins V.Model.Itertools V.Model.Heapq V.Model.Pyl V.Gen.PylSrc V.Proofs.PylRel.
 
 Definition fn_arg (f : option (list val -> val)) : callee :=
   match f with None => CNoneFn | Some p => CUser 0 p end.
@@ -133,7 +133,7 @@ Proof.
   intros start yield w. unfold run_genfn, src_enumerate, a_enumerate. apply orel_eq.
   norm. gen_frame. apply scoped_rel. norm.
   apply (bind_rel (exit_rel (fun (st1 : env * sig) (c : Z) =>
-                               lookup "count" (e_vars (fst st1)) = Some (VInt c)) any_rel)); [|trailing].
+                               lookup "count" (e_vars (fst st1)) = Some (Some (VInt c))) any_rel)); [|trailing].
   apply loop_src_rel; [|reflexivity].
   intros st1 c x w1 HR. norm. rewrite HR. norm. apply bind_same. intros u w2. norm.
   rewrite HR. norm. apply orel_ret, step_rel_cont. reflexivity.
@@ -220,12 +220,200 @@ Proof.
   norm. gen_frame. apply scoped_rel. norm.
   apply bind_same. intros [first|] w1; norm.
   - apply (bind_rel (exit_rel (fun (st1 : env * sig) (prev : val) =>
-                                 lookup "prev" (e_vars (fst st1)) = Some prev) any_rel)); [|trailing].
+                                 lookup "prev" (e_vars (fst st1)) = Some (Some prev)) any_rel)); [|trailing].
     apply loop_src_rel; [|reflexivity].
     intros st1 prev x w2 HR. norm. rewrite HR. norm. apply bind_same. intros u w3. norm.
     apply orel_ret, step_rel_cont. reflexivity.
   - apply orel_ret. exact I.
 Qed.
+
+(* ---------- second batch: sum, _min_max, accumulate, reduce ---------- *)
+Theorem src_sum_ok : forall start w, run_corofn src_sum [AIter 0; AVal start] w = a_sum start w.
+Proof.
+  intros start w. unfold run_corofn, src_sum, a_sum. apply orel_eq. norm.
+  apply (bind_rel (fun (r1 : env * sig) (r2 : val * bool) =>
+                     snd r1 = Normal /\ lookup "total" (e_vars (fst r1)) = Some (Some (fst r2)))).
+  - apply scoped_rel. norm.
+    apply bind_rel_l with (R := exit_rel (fun (st1 : env * sig) (t : val) =>
+                                 snd st1 = Normal /\ lookup "total" (e_vars (fst st1)) = Some (Some t))
+                               (fun _ _ => False)).
+    + apply loop_src_rel; [|split; reflexivity].
+      intros st1 t x w1 [HS HR]. norm. rewrite HR. norm.
+      destruct (py_add t x) as [v|]; norm; [|apply orel_raise].
+      apply orel_ret, step_rel_cont. split; reflexivity.
+    + intros [[en sg] c1] [t c2] w1 [Hc HR]. cbn [fst snd] in Hc, HR |- *. subst c2.
+      destruct c1; [contradiction|]. destruct HR as [HS HR]. subst sg. norm.
+      apply orel_ret. split; [reflexivity|exact HR].
+  - intros [en sg] [t c] w1 [HS HR]. cbn [fst snd] in HS, HR |- *. subst sg. norm. rewrite HR. norm.
+    apply orel_ret. reflexivity.
+Qed.
+
+Definition fn_arg_add (f : option (list val -> val)) : callee :=
+  match f with None => CAdd | Some g => CUser 0 g end.
+
+Theorem src_reduce_ok : forall f initial w,
+  run_corofn src_reduce [AFn (CUser 0 f); AIter 0; AOpt initial] w = a_reduce f initial w.
+Proof.
+  intros f initial w. unfold run_corofn, src_reduce, a_reduce. apply orel_eq.
+  pose (inv := fun (st1 : env * sig) (v : val) =>
+                 snd st1 = Normal /\ lookup "function" (e_fns (fst st1)) = Some (CUser 0 f) /\
+                 lookup "value" (e_vars (fst st1)) = Some (Some v)).
+  assert (Hend : forall (a1 : env * sig) (a2 : val) w',
+            snd a1 = Normal /\ lookup "value" (e_vars (fst a1)) = Some (Some a2) ->
+            orel eq ((r <- match snd a1 with
+                           | Normal => v <- (o <- need (lookup "value" (e_vars (fst a1)));; need o);; ret (fst a1, Ret v)
+                           | _ => ret a1
+                           end;; ret match snd r with Ret v => v | _ => VNone end) w') (ret a2 w')).
+  { intros [en sg] v w' [HS HR]. cbn [fst snd] in HS, HR |- *. subst sg. norm. rewrite HR. norm.
+    apply orel_ret. reflexivity. }
+  (* the loop, entered with "value" bound to the model's loop state *)
+  assert (Hbody : forall (st1 : env * sig) (t x : val) w2, inv st1 t ->
+            orel (step_rel inv (fun _ _ => False))
+              ((r <- exec (SAssign "value" (EAwaitCall2 "function" (EVar "value") (EVar "head")))
+                       (set_var (fst st1) "head" x) (fun _ => raise XRuntimeError);;
+                match snd r with Normal => ret (r, true) | _ => ret (r, false) end) w2)
+              ((v <- call 0 f [t; x];; ret (v, true)) w2)).
+  { intros st1 t x w2 (HS & HF' & HR). norm. rewrite HF', HR. norm.
+    apply bind_same. intros r w3. norm.
+    apply orel_ret, step_rel_cont. repeat split. exact HF'. }
+  assert (Hexit : forall (a1 : env * sig * bool) (a2 : val * bool) w',
+            exit_rel inv (fun _ _ => False) a1 a2 ->
+            orel (fun (r1 : env * sig) (v : val) =>
+                    snd r1 = Normal /\ lookup "value" (e_vars (fst r1)) = Some (Some v))
+              (match snd (fst a1) with Ret _ => ret (fst a1) | _ => ret (fst (fst a1), Normal) end w')
+              (ret (fst a2) w')).
+  { intros [[en' sg] c1] [t c2] w2 [Hc HR]. cbn [fst snd] in Hc, HR |- *. subst c2.
+    destruct c1; [contradiction|]. destruct HR as (HS & HF' & HR). cbn [fst snd] in HS, HF', HR. subst sg. norm.
+    apply orel_ret. split; [reflexivity|exact HR]. }
+  destruct initial as [v0|]; norm.
+  - apply bind_rel_l with (2 := Hend).
+    apply scoped_rel. norm. apply bind_rel with (2 := Hexit).
+    apply loop_src_rel; [exact Hbody|repeat split].
+  - apply bind_rel_l with (2 := Hend).
+    apply scoped_rel. norm. apply bind_same. intros [first|] w1; norm; [|apply orel_raise].
+    apply bind_rel with (2 := Hexit).
+    apply loop_src_rel; [exact Hbody|repeat split].
+Qed.
+
+Theorem src_accumulate_ok : forall f initial yield w,
+  run_genfn src_accumulate [AIter 0; AFn (fn_arg_add f); AOpt initial] yield w = a_accumulate f initial yield w.
+Proof.
+  intros f initial yield w. unfold run_genfn, src_accumulate, a_accumulate. apply orel_eq.
+  pose (inv := fun (st1 : env * sig) (v : val) =>
+                 lookup "function" (e_fns (fst st1)) = Some (fn_arg_add f) /\
+                 lookup "value" (e_vars (fst st1)) = Some (Some v)).
+  assert (Hbody : forall (st1 : env * sig) (t x : val) w2, inv st1 t ->
+            orel (step_rel inv any_rel)
+              ((r <- exec (SSeq (SAssign "value" (EAwaitCall2 "function" (EVar "value") (EVar "head")))
+                                (SYield (EVar "value")))
+                       (set_var (fst st1) "head" x) yield;;
+                match snd r with Normal => ret (r, true) | _ => ret (r, false) end) w2)
+              ((v <- match f with
+                     | Some g => call 0 g [t; x]
+                     | None => lift_val (py_add t x)
+                     end;; yield v;;; ret (v, true)) w2)).
+  { intros st1 t x w2 (HF' & HR). norm. rewrite HF', HR. norm.
+    apply (bind_rel eq).
+    - destruct f as [g|]; apply orel_refl.
+    - intros r ? w3 <-. norm. apply bind_same. intros u w4. norm.
+      apply orel_ret, step_rel_cont. split; [exact HF'|reflexivity]. }
+  destruct initial as [v0|]; norm; gen_frame; apply scoped_rel; norm.
+  - apply bind_same. intros u w1. norm.
+    apply (bind_rel (exit_rel inv any_rel)); [|trailing].
+    apply loop_src_rel; [exact Hbody|split; reflexivity].
+  - apply bind_same. intros [first|] w1; norm; [|apply orel_raise].
+    apply bind_same. intros u w2. norm.
+    apply (bind_rel (exit_rel inv any_rel)); [|trailing].
+    apply loop_src_rel; [exact Hbody|split; reflexivity].
+Qed.
+
+Theorem src_min_max_ok : forall invert key default w,
+  run_corofn src_min_max [AIter 0; AFn (fn_arg key); AVal (VBool invert); AOpt default] w = a_min_max invert key default w.
+Proof.
+  intros invert key default w. unfold run_corofn, src_min_max, a_min_max. apply orel_eq.
+  pose (R := fun (r1 : env * sig) (v : val) =>
+               match snd r1 with
+               | Ret v' => v' = v
+               | Normal => lookup "best" (e_vars (fst r1)) = Some (Some v)
+               | Brk => False
+               end).
+  assert (Hend : forall (a1 : env * sig) (a2 : val) w', R a1 a2 ->
+            orel eq ((r <- match snd a1 with
+                           | Normal => v <- (o <- need (lookup "best" (e_vars (fst a1)));; need o);; ret (fst a1, Ret v)
+                           | _ => ret a1
+                           end;; ret match snd r with Ret v => v | _ => VNone end) w') (ret a2 w')).
+  { intros [en sg] v w' HR. unfold R in HR. cbn [fst snd] in HR |- *. destruct sg; [|contradiction|]; norm.
+    - rewrite HR. norm. apply orel_ret. reflexivity.
+    - apply orel_ret. exact HR. }
+  pose (inv1 := fun (st1 : env * sig) (best : val) =>
+                  snd st1 = Normal /\
+                  lookup "invert" (e_vars (fst st1)) = Some (Some (VBool invert)) /\
+                  lookup "best" (e_vars (fst st1)) = Some (Some best)).
+  assert (Hbody1 : forall (st1 : env * sig) (best x : val) w2, inv1 st1 best ->
+            orel (step_rel inv1 (fun _ _ => False))
+              ((r <- exec (SIf (EIfExp (EVar "invert") (ELt (EVar "best") (EVar "item")) (ELt (EVar "item") (EVar "best")))
+                               (SAssign "best" (EVar "item")) SSkip)
+                       (set_var (fst st1) "item" x) (fun _ => raise XRuntimeError);;
+                match snd r with Normal => ret (r, true) | _ => ret (r, false) end) w2)
+              ((c <- lift_lt (minmax_replace invert best x);; ret (if c then x else best, true)) w2)).
+  { intros st1 best x w2 (HS & HI & HB). unfold minmax_replace. norm. rewrite HI. norm.
+    destruct invert; norm; rewrite HB; norm.
+    - destruct (py_lt best x) as [[|]|]; norm; try apply orel_raise;
+        apply orel_ret, step_rel_cont; repeat split; assumption.
+    - destruct (py_lt x best) as [[|]|]; norm; try apply orel_raise;
+        apply orel_ret, step_rel_cont; repeat split; assumption. }
+  assert (Hexit1 : forall (a1 : env * sig * bool) (a2 : val * bool) w',
+            exit_rel inv1 (fun _ _ => False) a1 a2 ->
+            orel R (match snd (fst a1) with Ret _ => ret (fst a1) | _ => ret (fst (fst a1), Normal) end w')
+                   (ret (fst a2) w')).
+  { intros [[en' sg] c1] [t c2] w2 [Hc HR]. cbn [fst snd] in Hc, HR |- *. subst c2.
+    destruct c1; [contradiction|]. destruct HR as (HS & HI & HB). cbn [fst snd] in HS, HI, HB. subst sg. norm.
+    apply orel_ret. exact HB. }
+  pose (inv2 := fun (k : list val -> val) (st1 : env * sig) (st : val * val) =>
+                  snd st1 = Normal /\
+                  lookup "key" (e_fns (fst st1)) = Some (CUser 0 k) /\
+                  lookup "invert" (e_vars (fst st1)) = Some (Some (VBool invert)) /\
+                  lookup "best" (e_vars (fst st1)) = Some (Some (fst st)) /\
+                  lookup "best_key" (e_vars (fst st1)) = Some (Some (snd st))).
+  assert (Hbody2 : forall k (st1 : env * sig) (st : val * val) (x : val) w2, inv2 k st1 st ->
+            orel (step_rel (inv2 k) (fun _ _ => False))
+              ((r <- exec (SSeq (SAssign "item_key" (EAwaitCall1 "key" (EVar "item")))
+                                (SIf (EIfExp (EVar "invert") (ELt (EVar "best_key") (EVar "item_key"))
+                                                             (ELt (EVar "item_key") (EVar "best_key")))
+                                     (SSeq (SAssign "best" (EVar "item")) (SAssign "best_key" (EVar "item_key"))) SSkip))
+                       (set_var (fst st1) "item" x) (fun _ => raise XRuntimeError);;
+                match snd r with Normal => ret (r, true) | _ => ret (r, false) end) w2)
+              ((ik <- call 0 k [x];; c <- lift_lt (minmax_replace invert (snd st) ik);;
+                ret (if c then (x, ik) else st, true)) w2)).
+  { intros k st1 [best bk] x w2 (HS & HK & HI & HB & HBK). cbn [fst snd] in HB, HBK |- *.
+    unfold minmax_replace. norm. rewrite HK. norm.
+    apply bind_same. intros ik w3. norm. rewrite HI. norm.
+    destruct invert; norm; rewrite HBK; norm.
+    - destruct (py_lt bk ik) as [[|]|]; norm; try apply orel_raise;
+        apply orel_ret, step_rel_cont; repeat split; assumption.
+    - destruct (py_lt ik bk) as [[|]|]; norm; try apply orel_raise;
+        apply orel_ret, step_rel_cont; repeat split; assumption. }
+  assert (Hexit2 : forall k (a1 : env * sig * bool) (a2 : val * val * bool) w',
+            exit_rel (inv2 k) (fun _ _ => False) a1 a2 ->
+            orel R (match snd (fst a1) with Ret _ => ret (fst a1) | _ => ret (fst (fst a1), Normal) end w')
+                   (ret (fst (fst a2)) w')).
+  { intros k [[en' sg] c1] [[t tk] c2] w2 [Hc HR]. cbn [fst snd] in Hc, HR |- *. subst c2.
+    destruct c1; [contradiction|]. destruct HR as (HS & HK & HI & HB & HBK). cbn [fst snd] in HS, HB. subst sg. norm.
+    apply orel_ret. exact HB. }
+  destruct default as [d|], key as [k|]; norm; (apply bind_rel_l with (2 := Hend)); apply scoped_rel; norm;
+    (apply bind_same; intros [first|] w1; norm; try (apply orel_ret; reflexivity); try apply orel_raise).
+  - apply bind_same. intros k0 w2. norm. apply bind_rel with (2 := Hexit2 k).
+    apply loop_src_rel; [exact (Hbody2 k)|repeat split].
+  - apply bind_rel with (2 := Hexit1).
+    apply loop_src_rel; [exact Hbody1|repeat split].
+  - apply bind_same. intros k0 w2. norm. apply bind_rel with (2 := Hexit2 k).
+    apply loop_src_rel; [exact (Hbody2 k)|repeat split].
+  - apply bind_rel with (2 := Hexit1).
+    apply loop_src_rel; [exact Hbody1|repeat split].
+Qed.
+
+Theorem min_max_wrappers_ok : min_max_wrappers = [("max"%string, Some true); ("min"%string, Some false)].
+Proof. reflexivity. Qed.
 
 Theorem all_sources_supported : forallb (fun f => supported (f_body f)) all_sources = true.
 Proof. vm_compute. reflexivity. Qed.
@@ -243,3 +431,8 @@ Print Assumptions src_filterfalse_ok.
 Print Assumptions src_starmap_ok.
 Print Assumptions src_pairwise_ok.
 Print Assumptions all_sources_supported.
+Print Assumptions src_sum_ok.
+Print Assumptions src_min_max_ok.
+Print Assumptions min_max_wrappers_ok.
+Print Assumptions src_accumulate_ok.
+Print Assumptions src_reduce_ok.
